@@ -290,9 +290,32 @@ func (tb TemporalBound) String() string {
 		return "_"
 	case NowBound:
 		return "now"
+	case DurationTemporalBound:
+		return formatDurationBound(time.Duration(tb.Timestamp))
 	default:
 		return "?"
 	}
+}
+
+// formatDurationBound prints a duration in the source syntax for duration
+// bounds: a non-negative whole number followed by a single unit.
+func formatDurationBound(d time.Duration) string {
+	if d == 0 {
+		return "0s"
+	}
+	if d > 0 {
+		units := []struct {
+			size time.Duration
+			name string
+		}{{24 * time.Hour, "d"}, {time.Hour, "h"}, {time.Minute, "m"}, {time.Second, "s"}, {time.Millisecond, "ms"}}
+		for _, u := range units {
+			if d%u.size == 0 {
+				return fmt.Sprintf("%d%s", int64(d/u.size), u.name)
+			}
+		}
+	}
+	// Not expressible in source syntax (negative or finer than a millisecond).
+	return d.String()
 }
 
 // Equals returns true if two temporal bounds are equal.
